@@ -37,6 +37,9 @@ func main() {
 	all := flag.Bool("all", false, "debug: run every registered rule once and print the findings")
 	manifest := flag.Bool("manifest", false, "regenerate /verif/MANIFEST.json from the property table")
 	flag.Parse()
+	if a := os.Getenv("RB_ARCH"); a != "" { // debug: run the single-configuration modes on another architecture
+		cfgAmd64 = BuildConfig{Name: "linux/" + a, GOARCH: a}
+	}
 	// go/packages resolves the "go" command through this process's PATH
 	os.Setenv("PATH", "/opt/veriftools/go1.26.8/bin:"+os.Getenv("PATH"))
 
@@ -298,6 +301,7 @@ func runProperty(prop, tier string) (exit int) {
 	var selftest []string
 	if tier == "thorough" {
 		runOn(cfgArm64, nil)
+		runOn(cfg386, nil)
 		runOn(cfgAppengine, nil)
 		st, stFind := runSelfTests(prop, spec)
 		selftest = st
